@@ -372,3 +372,64 @@ class LoadApplicationOutcome:
         return (not exists_int(lambda k: k in unloaded)
                 and implies(wait, len(_trace) == 0)
                 and implies(not wait, len(_trace) == 1 and _trace[0] == ("signal", "start", app_id)))
+
+
+# ---- the signals load_application relies on: start / stop, and the count of waiting cores ----------------------------------
+def _scp_rec(E, obj, args, kwargs, st, node):
+    s = st.copy()
+    s.trace = ListV(s.trace.items + (("scp",) + tuple(args),))
+    return [(s, st.env["g_reply"] if "g_reply" in st.env else NONE, None)]
+
+
+CMD_SIGNAL = 22          # SCP command "signal" (sark.h: CMD_SIG 22)
+
+
+def nn_signal(sig):
+    """signals sent as nearest-neighbour packets (init, power-down, stop, start, exit); the others go by multicast (ybug's
+    sig_type table: NN 2, MC 0)"""
+    return sig == 0 or sig == 1 or sig == 2 or sig == 3 or sig == 8
+
+
+@contract("rig/machine_control/machine_controller.py::MachineController.send_signal")
+class SendSignal:
+    """(signal given as a number; names are looked up in the enumeration first)"""
+    properties = ("C09",)
+    params = dict(self=TRec("MachineController"), signal=TInt(0, 255), app_id=TInt(0, 255))
+    externals = {"MachineController._send_scp": _scp_rec}
+    options = {"decorators": {"use_contextual_arguments": "identity"}, "int_class": "rig/machine_control/consts.py::AppSignal"}
+    raises = {"ValueError": None}
+    assumptions = ["_send_scp is recorded here (C18)"]
+
+    def native(signal):
+        raise __import__("pyvc.replay", fromlist=["OutsideHarness"]).OutsideHarness()
+
+    def raises_ValueError(signal, _trace):
+        return not (0 <= signal <= 13) and len(_trace) == 0            # nothing is sent for a number that is no signal
+
+    def ensures_one_signal_packet_for_exactly_this_application(signal, app_id, _trace):
+        return (0 <= signal <= 13 and len(_trace) == 1
+                and _trace[0] == ("scp", 255, 255, 0, CMD_SIGNAL, (2 if nn_signal(signal) else 0),
+                                  signal * 65536 + 0xff00 + app_id, 0xffff))
+
+
+@contract("rig/machine_control/machine_controller.py::MachineController.count_cores_in_state")
+class CountCoresInState:
+    """(state given as a number) one count request for exactly this state of exactly this application over the whole machine
+    (region word 0x0000ffff: level 0, every block); the answer is the reply's first argument"""
+    properties = ("C09",)
+    params = dict(self=TRec("MachineController"), state=TInt(0, 255), app_id=TInt(0, 255), g_reply=TRec("SCPPacket", arg1=TInt(0, 2 ** 32 - 1)))
+    externals = {"MachineController._send_scp": _scp_rec}
+    options = {"decorators": {"use_contextual_arguments": "identity"}, "int_class": "rig/machine_control/consts.py::AppState"}
+    raises = {"ValueError": None}
+    assumptions = ["_send_scp is recorded here (C18); its reply is the ghost g_reply"]
+
+    def native(state):
+        raise __import__("pyvc.replay", fromlist=["OutsideHarness"]).OutsideHarness()
+
+    def raises_ValueError(state, _trace):
+        return not (0 <= state <= 11 or state == 15) and len(_trace) == 0
+
+    def ensures_counts_this_state_of_this_application_everywhere(state, app_id, g_reply, result, _trace):
+        # arg2: level 0 << 26 | "all cores of the region" 1 << 22 | operation count (2) << 20 | state << 16 | app mask 0xff << 8 | app
+        return ((0 <= state <= 11 or state == 15) and result == g_reply.arg1 and len(_trace) == 1
+                and _trace[0] == ("scp", 255, 255, 0, CMD_SIGNAL, 1, (1 << 22) + (2 << 20) + state * 65536 + 0xff00 + app_id, 0xffff))
